@@ -283,3 +283,93 @@ def class_accepts(items, ch):
             elif av is sre_c.CATEGORY_NOT_SPACE:
                 hit = hit or not ch.isspace()
     return hit != neg
+
+
+# ---------------------------------------------------------------- backtracking safety
+_ALPHABET = [chr(c) for c in range(32, 127)] + ["\t", "\n"]
+_REPEATS = tuple(x for x in (sre_c.MAX_REPEAT, sre_c.MIN_REPEAT, getattr(sre_c, "POSSESSIVE_REPEAT", None)) if x is not None)
+
+
+def first_chars(seq):
+    """(set of ASCII characters a match of the item sequence can start with, can the sequence match the empty string)"""
+    out = set()
+    for op, av in seq:
+        if op is sre_c.LITERAL:
+            return out | {chr(av)}, False
+        if op is sre_c.NOT_LITERAL:
+            return out | {c for c in _ALPHABET if ord(c) != av}, False
+        if op is sre_c.ANY:
+            return out | set(_ALPHABET), False
+        if op is sre_c.IN:
+            return out | {c for c in _ALPHABET if class_accepts(av, c)}, False
+        if op is sre_c.SUBPATTERN:
+            f, nul = first_chars(av[3])
+        elif op in _REPEATS:
+            f, nul = first_chars(av[2])
+            nul = nul or av[0] == 0
+        elif op is sre_c.BRANCH:
+            f, nul = set(), False
+            for alt in av[1]:
+                f2, n2 = first_chars(alt)
+                f |= f2
+                nul = nul or n2
+        elif op in (sre_c.AT, sre_c.ASSERT, sre_c.ASSERT_NOT):
+            continue  # zero-width
+        elif getattr(sre_c, "ATOMIC_GROUP", None) is not None and op is sre_c.ATOMIC_GROUP:
+            f, nul = first_chars(av)
+        else:
+            return out | set(_ALPHABET), True  # unknown item: assume anything
+        out |= f
+        if not nul:
+            return out, False
+    return out, True
+
+
+def backtracking_hazards(tree):
+    """constructs that make Python's backtracking matcher super-linear in the worst case by an exponential factor:
+    an unbounded repeat nested (through groups / alternatives) inside another unbounded repeat, and an unbounded repeat over
+    alternatives that can start with the same character.  Returns a list of descriptions."""
+    out = []
+
+    def walk(seq, inside):
+        for op, av in seq:
+            if op in _REPEATS:
+                lo, hi, sub = av
+                unb = hi is sre_c.MAXREPEAT or (isinstance(hi, int) and hi >= 65535)
+                # a repeat of a single character / class item cannot be split in more than one way by itself
+                simple = len(sub) == 1 and sub[0][0] in (sre_c.LITERAL, sre_c.NOT_LITERAL, sre_c.ANY, sre_c.IN)
+                if unb and inside:
+                    out.append("an unbounded repeat nested inside another unbounded repeat")
+                if unb and not simple:
+                    for op2, av2 in sub:
+                        pass
+                walk(sub, inside or (unb and not simple) or (unb and inside))
+                if unb:
+                    # alternatives directly under this repeat
+                    stack = list(sub)
+                    while stack:
+                        o2, a2 = stack.pop()
+                        if o2 is sre_c.SUBPATTERN:
+                            stack.extend(a2[3])
+                        elif o2 is sre_c.BRANCH:
+                            firsts = [first_chars(alt)[0] for alt in a2[1]]
+                            for i in range(len(firsts)):
+                                for j in range(i + 1, len(firsts)):
+                                    if firsts[i] & firsts[j]:
+                                        out.append("an unbounded repeat over alternatives that can start with the same character")
+            elif op is sre_c.SUBPATTERN:
+                walk(av[3], inside)
+            elif op is sre_c.BRANCH:
+                for alt in av[1]:
+                    walk(alt, inside)
+            elif op in (sre_c.ASSERT, sre_c.ASSERT_NOT):
+                walk(av[1], inside)
+            elif getattr(sre_c, "ATOMIC_GROUP", None) is not None and op is sre_c.ATOMIC_GROUP:
+                walk(av, inside)
+            elif op is sre_c.GROUPREF_EXISTS:
+                walk(av[1], inside)
+                if av[2] is not None:
+                    walk(av[2], inside)
+
+    walk(list(tree), False)
+    return sorted(set(out))
